@@ -183,6 +183,15 @@ Definition dup_fd (g : gstate) (sid : N) : gstate :=
 Definition new_sock (g : gstate) (a : addr) : gstate :=
   set_socks g (g_socks g ++ [{| s_id := g_next g; s_addr := a; s_fds := 1 |}]) (g_next g + 1).
 
+(* closing one descriptor of a socket; a socket without descriptors is gone *)
+Definition close_fd (socks : list sock) (sid : N) : list sock :=
+  filter (fun s => negb (Nat.eqb (s_fds s) 0))
+    (map (fun s => if s_id s =? sid then {| s_id := s_id s; s_addr := s_addr s; s_fds := pred (s_fds s) |} else s) socks).
+
+(* the deferred clean-up of startServers: what this call opened is closed again, newest first *)
+Definition close_opened (g : gstate) (acc : list (addr * N)) : gstate :=
+  set_socks g (fold_right (fun p socks => close_fd socks (snd p)) (g_socks g) acc) (g_next g).
+
 Fixpoint start_servers (old : list (addr * N)) (addrs : list addr) (g : gstate) (acc : list (addr * N))
   : outcome * gstate * list (addr * N) :=
   match addrs with
@@ -192,7 +201,7 @@ Fixpoint start_servers (old : list (addr * N)) (addrs : list addr) (g : gstate) 
       | Some sid => start_servers old r (dup_fd g sid) (acc ++ [(a, sid)])
       | None =>
           match a with
-          | ABusy => (RErr, g, acc)       (* Listen fails; what was opened so far stays open *)
+          | ABusy => (RErr, close_opened g acc, [])   (* Listen fails; what was opened so far is closed *)
           | AEph _ => start_servers old r (new_sock g a) (acc ++ [(a, g_next g)])
           end
       end
@@ -214,17 +223,14 @@ Definition start_with (step : N) (e : env) (c : cfg) (old : list (addr * N)) (g 
             let '(r3, g3, srv) := start_servers old (c_addrs c) g2 [] in
             match r3 with
             | ROk => (ROk, g3, Some {| i_cfg := c_id c; i_servers := srv; i_auth := l_auth l; i_log := l_log l |})
-            | x => (x, g3, None)
+            | x => (x, set_socks g3 (g_socks g3) (g_next g2), None)  (* the identities of the closed sockets are free again *)
             end
         | x => (x, g2, None)
         end
     | x => (x, g1, None)
     end.
 
-(* Instance.Stop: every server closes its descriptor; a socket without descriptors is gone *)
-Definition close_fd (socks : list sock) (sid : N) : list sock :=
-  filter (fun s => negb (Nat.eqb (s_fds s) 0))
-    (map (fun s => if s_id s =? sid then {| s_id := s_id s; s_addr := s_addr s; s_fds := pred (s_fds s) |} else s) socks).
+(* Instance.Stop: every server closes its descriptor *)
 Definition stop_inst (g : gstate) (i : inst) : gstate :=
   set_socks g (fold_left close_fd (map snd (i_servers i)) (g_socks g)) (g_next g).
 
@@ -463,23 +469,20 @@ Definition no_log (effs : list effect) : bool :=
 Definition socks_le (a b : list sock) : Prop :=
   forall s, In s a -> exists s', In s' b /\ s_id s' = s_id s /\ s_addr s' = s_addr s /\ (s_fds s <= s_fds s')%nat.
 
-(* the failing Listen comes first, or no Listen can fail *)
-Definition listen_safe (addrs : list addr) : bool :=
-  match addrs with
-  | ABusy :: _ => true
-  | l => negb (existsb is_busy l)
-  end.
-
 (* nobody ever serves on the address that is held by somebody else *)
 Definition srv_wf (srv : list (addr * N)) : Prop := forall a sid, In (a, sid) srv -> a <> ABusy.
-Definition wf (g : gstate) : Prop := forall i, In i (g_insts g) -> srv_wf (i_servers i).
+(* every socket of the table has a descriptor and an identity handed out earlier *)
+Definition socks_ok (g : gstate) : Prop :=
+  forall s, In s (g_socks g) -> (1 <= s_fds s)%nat /\ s_id s < g_next g.
+Definition wf (g : gstate) : Prop :=
+  (forall i, In i (g_insts g) -> srv_wf (i_servers i)) /\ socks_ok g.
 
 (* the faithful model leaves something behind exactly through: hooks of `on` (not on the SIGUSR1 path),
-   the htpasswd cache, the rollers of startup callbacks that ran, listeners opened before a failing one *)
+   the htpasswd cache, the rollers of startup callbacks that ran *)
 Definition harmless0 (m : mode) (c : cfg) : bool :=
   (match m with Sigusr1 => true | _ => no_on (c_effs c) end)
   && no_auth (c_effs c)
-  && (match m with Validate | Execute => true | _ => no_log (c_effs c) && listen_safe (c_addrs c) end).
+  && (match m with Validate | Execute => true | _ => no_log (c_effs c) end).
 
 (* only what an attempt reaches matters: nothing of a configuration that does not parse; of one with a
    bad directive the directives before it, without the startup callbacks they merely schedule *)
